@@ -10,21 +10,30 @@ from . import env, appenv, ref, lvsref
 
 PROPERTY = 'C14'
 INFO = {
-    'explanation': 'C14: certificate hierarchies (anchor -> intermediate -> packet, and anchor -> packet) are built with the '
-                   'real new_cert / make_data on the ideal signature model; one deviation per run is injected at a link chosen '
-                   'by the engine (disallowed issuer, one signature byte replaced by a symbolic different value at a symbolic '
-                   'position, substituted key, certificate not retrievable by Nack / timeout, unsigned packet, locator loop); '
-                   'the verdict must equal the chain predicate of the statement.  History: two validator instances built with '
-                   'DEFAULT arguments and different anchors validate packets in both orders.',
-    'bounds': {'quick': {'chain_depth': '1..2 links below the anchor', 'faults': 'one per run, 9 kinds, at either link',
+    'explanation': 'C14: (deep) schema and certificate hierarchy are generated for depth D with one key type per level, built '
+                   'with the real new_cert / make_data on the ideal signature model; one deviation per run is injected at one '
+                   'link (signature byte, issuer not allowed by the schema, certificate name fitting no key rule, substituted '
+                   'key under the same certificate name, Nack, silence, unsigned element, self-loop, packet name outside the '
+                   'schema, one tampered byte with a symbolic non-zero delta); the verdict must equal a reference chain '
+                   'predicate that is not told the fault: it walks the chain on reference-parsed bytes, the source-level '
+                   'schema and the repository contents.  (ctor_roots) four schemas whose roots of trust and anchor matches '
+                   'differ in each direction, first component of the anchor name symbolic.  (chain / ctor) hand-written '
+                   'depth 1..2 cases.  (history) validator instances built with DEFAULT arguments, several anchors, ghost '
+                   'certificates, both orders.',
+    'bounds': {'quick': {'chain_depth': '1..3 links below the anchor', 'faults': 'one per run, 10 kinds, at every link',
+                         'tampering': '6 byte positions per element, any different value',
                          'signature_corruption': 'position in {0, mid, last}, any different value',
-                         'history': '2 instances, 2 validations, both orders'}},
-    'outside': ['real cryptography', 'chains deeper than 2 links', 'more than one simultaneous deviation'],
+                         'history': '2..3 instances, 2..3 validations, both orders'},
+               'thorough': {'chain_depth': '1..4', 'tampering': 'every byte position of every element of a depth-2 and a '
+                            'depth-3 chain, any different value'}},
+    'outside': ['real cryptography', 'chains deeper than 4 links', 'more than one simultaneous deviation',
+                'validity periods (not consulted by the validator, not part of the statement)'],
     'assumptions': ['ideal signature / hash model', 'virtual-time loop', 'stub repository answers an Interest for a '
                     'certificate name with that certificate (or Nack / silence)'],
 }
-MANDATORY = {'deep': ['verdict-equals-chain-predicate', 'reference-accepts-the-valid-chain'], 'chain': ['verdict-equals-chain-predicate'], 'ctor': ['constructor-checks-anchor'],
-             'history': ['verdict-independent-of-history']}
+MANDATORY = {'deep': ['verdict-equals-chain-predicate', 'reference-accepts-the-valid-chain'],
+             'chain': ['verdict-equals-chain-predicate'], 'ctor': ['constructor-checks-anchor'],
+             'ctor_roots': ['constructor-checks-anchor'], 'history': ['verdict-independent-of-history']}
 
 SCHEMA = '''
 #KEY: "KEY"/_/_/_
